@@ -178,7 +178,7 @@ func c18AssignMain(args []string) int {
 	}
 
 	var sb strings.Builder
-	sb.WriteString("From LMD Require Import C18.Run.\nOpen Scope N_scope.\n")
+	sb.WriteString("From LMD Require Import C18.Run.\nOpen Scope N_scope.\nOpen Scope string_scope.\n")
 	names := []string{}
 	for i, in := range inputs {
 		obs := c18RunCase(in)
